@@ -14,6 +14,9 @@
 //!   image.move  <obj> <dx> <dy>                -> `bb=<rect> mut=<1|0> r1=<map>` of `.translate((dx,dy))`
 //!        on an unbounded R1; `mut` = `translate_mut` left the same value as `translate` returned
 //!   (`err:<expected>` when `ImageRaw::new` rejects the buffer)
+//!   image.wide  <bits> <order> <w> <h>         -> `p00=<v|none>`: `pixel((0,0))` of a zero filled image
+//!        of a size beyond i32::MAX (replay only, never generated; the model driver skips it: the
+//!        buffer has >= 2^28 bytes. Lean side: `pixel_none_inside_when_width_wraps`)
 //!
 //! The generic `ImageRaw<C, O>` is instantiated for the 7 raw widths (BinaryColor, Gray2, Gray4,
 //! Gray8, Rgb565, Rgb888 and the local `C32` with `Raw = RawU32`) x 2 data orders; colours are
@@ -134,6 +137,18 @@ where
         }
     }
     Ok(v)
+}
+
+fn real_wide<C, O>(size: Size) -> Result<Option<u32>, usize>
+where
+    C: ColNum,
+    O: DataOrder,
+    for<'a> RawDataSlice<'a, C::Raw, O>: IntoIterator<Item = C::Raw>,
+{
+    let len = ref_bpr(C::Raw::BITS_PER_PIXEL as u32, size.width) * size.height as usize;
+    let data = vec![0u8; len]; // zeroed allocation: pages are never touched
+    let raw = ImageRaw::<C, O>::new(&data, size).map_err(expected_of)?;
+    Ok(raw.pixel(Point::new(0, 0)).map(|c| c.num()))
 }
 
 fn make_image<'a, T: ImageDrawable>(d: &'a T, obj: &Obj) -> Image<'a, T> {
@@ -597,6 +612,18 @@ impl Module for M {
                 Ok(()) => "ok".into(),
                 Err(e) => format!("err:{}", e),
             };
+        }
+        if stream == "image.wide" {
+            let got = dispatch!(bits, order, real_wide(size));
+            let got = match got {
+                Err(e) => return format!("err:{}", e),
+                Ok(g) => g,
+            };
+            // pixel_none_iff at the point the theorem excludes (`width, height <= i32::MAX`)
+            ctx.expect(got.is_some() == (w > 0 && h > 0), "C09:pixel-none-inside-box:size-exceeds-i32", || {
+                format!("{} pixel((0,0)) = {:?} although (0,0) is inside the bounding box", op, got)
+            });
+            return format!("p00={}", fmt_opt(got));
         }
         let bytes: Vec<u8> = t.u32_list().into_iter().map(|b| b as u8).collect();
         if bits < 8 && w % (8 / bits) != 0 {
